@@ -23,9 +23,14 @@ pub fn zoo_roundtrip<M: ZooMsg + ?Sized>(n: u32) -> Result<(), String> {
         let mut d = Decider::from_seed(0xA11CE + i as u64);
         let v = M::gen(&mut Gen::new(&mut d, St::Msgs, 6));
         buf.fill(if i % 2 == 0 { 0 } else { 0xFF });
+        let _ = crate::zoo::take_invalid();
         let r = guarded(|| M::emplace_val(&mut buf, &v).map(|m| (m.read(), m.size())));
+        let invalid = crate::zoo::take_invalid();
         match r {
             Ok(Ok((back, size))) => {
+                // a freshly emplaced value that reads as invalid content, or claims more than its
+                // buffer, counts as a value that changed on the way (same classification below)
+                let back = if invalid.is_some() || size > buf.len() { Val::S(format!("<{} / size() {}>", invalid.unwrap_or("oversized"), size)) } else { back };
                 if back != v {
                     // does the result depend on what the buffer held before?  (then it is the
                     // library, not the adapter: the same emplacement is right over zeros)
@@ -40,9 +45,7 @@ pub fn zoo_roundtrip<M: ZooMsg + ?Sized>(n: u32) -> Result<(), String> {
                     // not what the application built)
                     return Err(format!("MISMATCH:emplace|emplacing {} reads back {}", v.short(), back.short()));
                 }
-                if size > buf.len() {
-                    return Err(format!("size() {} exceeds the buffer", size));
-                }
+
                 if !distinct.contains(&back) {
                     distinct.push(back);
                 }
